@@ -51,16 +51,41 @@ THEOREMS_CYCLES = [
 ]
 REFUTATIONS_CYCLES = ["ProbLogProofs.C09.C09_cutEval_eq_lfp_needs_positive", "ProbLogProofs.C09.C09_exNeg_not_stratified"]
 
+MODULE_UNROLL = "ProbLogProofs.Properties.C09Unroll"
+THEOREMS_UNROLL = [
+    "ProbLogProofs.C09.C09_unroll",
+    "ProbLogProofs.C09.C09_unroll_root",
+    "ProbLogProofs.C09.C09_breakSimple_total",
+    "ProbLogProofs.C09.C09_breakSimple_correct",
+    "ProbLogProofs.C09.C09_breakSimple_correct_positive",
+    "ProbLogProofs.C09.C09_breakSimple_roots",
+    "ProbLogProofs.C09.C09_breakNode_valid",
+    "ProbLogProofs.C09.C09_breakNode_root",
+    "ProbLogProofs.C09.C09_breakNode_correct",
+    "ProbLogProofs.C09.C09_breakCycles_correct",
+    "ProbLogProofs.C09.C09_breakNode_eq_S",
+    "ProbLogProofs.C09.C09_breakCycles_eq_S",
+    "ProbLogProofs.C09.C09_transOK_nil",
+    "ProbLogProofs.C09.C09_detOK_no_weights",
+]
+REFUTATIONS_UNROLL = ["ProbLogProofs.C09.C09_unroll_needs_stratified", "ProbLogProofs.C09.C09_reuse_not_cutEval"]
+
 MANIFEST = {
     "level": "proof",
     "technique": "Lean 4 theorems about hand-written models of cycles.py and clarks_completion + exact correspondence "
                  "with the real transformations on every generated ground program + truth-table oracle",
-    "text": "Lean: Clark's completion of an acyclic store has, for every atom assignment, exactly one model extending "
-            "it and that model is the bottom-up evaluation (all stores, all assignments); cut-evaluation equals the least "
-            "fixpoint on positive-cycle stores. The models are the same algorithms as cycles.py/cnf_formula.py and are "
-            "compared exactly (nodes, clauses, weights, names, constraints) with the real output on every instance.",
+    "text": "Lean (all stores, all atom assignments): the model of break_cycles - including the translation-reuse table, "
+            "the query loop and the evidence loop - builds an acyclic store whose bottom-up value of every labelled node is "
+            "the perfect-model (least fixpoint of the reduct) value of the cyclic source, for stratified sources "
+            "(C09_breakCycles_correct, via C09_unroll / C09_breakNode_valid and the loop-cut theorems); Clark's completion "
+            "of an acyclic store has exactly one model per atom assignment, the bottom-up evaluation, with AD clauses = "
+            "exactly-one, weights/names/constraints carried over (C09_clark_*). The models are the same algorithms as "
+            "cycles.py/cnf_formula.py and are compared exactly (nodes, clauses, weights, names, constraints) with the real "
+            "output on every instance.",
     "note": "Trusted: Lean kernel + standard axioms; harness. Hand-written models tied by correspondence on the "
-            "instances run. See evidence obligation list for which theorems are discharged at this commit.",
+            "instances run. Not covered by the unrolling theorem: the evidence-propagation table (ev = some _) and names labelled "
+            "'named'. The equational form of the reuse invariant is false (refutation C09_reuse_not_cutEval, replayed on the "
+            "real code: the reused node is only sandwiched between cut value and perfect-model value), the reuse rule is sound.",
     "design_ref": "DESIGN.md §5.2, §6 C09",
 }
 
@@ -259,6 +284,7 @@ def run(ctx):
                 "serialised source store; non-trivial = at least one compound node")
     ctx.proof_phase(MODULE, THEOREMS)
     ctx.proof_phase(MODULE_CYCLES, THEOREMS_CYCLES, refutations=REFUTATIONS_CYCLES)
+    ctx.proof_phase(MODULE_UNROLL, THEOREMS_UNROLL, refutations=REFUTATIONS_UNROLL)
     drv = ctx.driver("Drivers.Spine")
     rng = ctx.sub_rng("programs")
     nprog = ctx.budget(150, 3000)
